@@ -1216,6 +1216,12 @@ def correspond(ctx):
         cases.triangles[k] = t
         if k % 9 == 4 or k >= n_tri:
             n_ops += state_and_spelling_stream(ctx, t, rng, fails)
+    probs, err = jc.cross_process_probe(ctx, "cum")      # family O (judged by the C10 and C11 oracles)
+    ctx.hist("cross-process probe (pickled under another PYTHONHASHSEED)")
+    ctx.obligation("cross-process probe runs", err is None, err or "")
+    probs = [x for x in probs if x.startswith(("mixed triangle", "the unpickled"))]
+    if probs:
+        fails.append((jc.mk_triangle([]), {"kind": "cross_process"}, probs))
     ctx.log(f"{n_tri} + {len(specials)} triangles, {n_ops} operations, {cases.total()} Coq cases in {len(cases.files)} files; "
             f"python oracles: {len(fails)} failing")
     bad, errs = cases.run(timeout=900 if ctx.quick else 2400)
@@ -1252,6 +1258,14 @@ def correspond(ctx):
 def replay(ctx, data):
     t = jc.tri_from_json(data["triangle"])
     op = data["op"]
+    if op.get("kind") == "cross_process":
+        probs, err = jc.cross_process_probe(ctx, "cum")
+        probs = [x for x in probs if x.startswith(("mixed triangle", "the unpickled"))] + ([err] if err else [])
+        for x in probs:
+            print("PROBLEM:", x)
+        if not probs:
+            print("the property holds on this input")
+        return 1 if probs else 0
     if op.get("kind") in ("spelling", "refusal") or op.get("stream") == "state":
         fails = []
         state_and_spelling_stream(ctx, t, random.Random(0), fails)
